@@ -615,3 +615,54 @@ Proof.
   - rewrite (forallb_nth _ _ (mkTr RPExit WPExit HRExit true true true true true true)). intros g Hg. apply D; [|lia].
     apply in_seq. lia.
 Qed.
+
+
+(* ---- pumps do not accumulate over reconnects ---- *)
+Definition is_closing (p : clc) : bool := match p with T2 _ | T3 _ => true | _ => false end.
+Definition g_of (p : clc) : list nat := match p with T2 g | T3 g => [g] | _ => [] end.
+Definition rt_g (r : rtc) : list nat := match r with RGot g | RHoldGot g | RWait g | RClosing g => [g] | _ => [] end.
+Definition live_list (s : st) : list nat :=
+  (match actr s with Some g => [g] | None => [] end) ++ rt_g (rt s) ++
+  (match find_idx is_closing (cl s) with Some k => g_of (getC s k) | None => [] end).
+
+Lemma live_list_short s : length (live_list s) <= 3.
+Proof.
+  unfold live_list. rewrite !app_length.
+  assert (length (match actr s with Some g => [g] | None => [] end) <= 1) by (destruct (actr s); cbn; lia).
+  assert (length (rt_g (rt s)) <= 1) by (destruct (rt s); cbn; lia).
+  assert (length (match find_idx is_closing (cl s) with Some k => g_of (getC s k) | None => [] end) <= 1)
+    by (destruct (find_idx _ _); [destruct (getC s n)|]; cbn; lia).
+  lia.
+Qed.
+
+Lemma live_in_list s g : Inv s -> Live s g -> In g (live_list s).
+Proof.
+  intros I [A|[R|(k & Hk & C)]]; unfold live_list.
+  - rewrite A. cbn. auto.
+  - apply in_or_app. right. apply in_or_app. left. destruct (rt s); cbn in *; try discriminate; apply Nat.eqb_eq in R; auto.
+  - apply in_or_app. right. apply in_or_app. right.
+    destruct (find_idx is_closing (cl s)) as [k0|] eqn:F.
+    + destruct (find_idx_some _ _ (CRet false) _ F) as [Hk0 P]. fold (getC s k0) in P.
+      assert (k0 = k) as ->.
+      { apply (i_uniq _ I); auto; [destruct (getC s k0)|destruct (getC s k)]; try discriminate; reflexivity. }
+      destruct (getC s k); cbn in *; try discriminate; apply Nat.eqb_eq in C; auto.
+    + apply find_idx_none in F. rewrite (forallb_nth _ _ (CRet false)) in F. specialize (F k Hk). fold (getC s k) in F.
+      destruct (getC s k); cbn in *; discriminate.
+Qed.
+
+(* at any moment of any schedule - any number of connection losses, failed dials, reconnects, Close calls - at most three
+   transports have a write pump which has not ended (the current one, the one the reconnect loop has in its hands, the one a Close
+   is closing), and the read pump of a transport whose write pump has ended is gone or ends by its own next step *)
+Theorem pumps_do_not_accumulate ls : let s := exec good init ls in
+  (exists l, length l <= 3 /\ forall g, g < length (trs s) -> wp (getT s g) <> WPExit -> In g l) /\
+  (forall g, g < length (trs s) -> wp (getT s g) = WPExit -> rp (getT s g) <> RPExit -> exists s', step good s (LRp g) = Some s').
+Proof.
+  intros s. pose proof (inv_exec ls init inv_init) as I. fold s in I. split.
+  - exists (live_list s). split; [apply live_list_short|]. intros g Hg W.
+    destruct (i_tr _ I g Hg) as [_ _ [L|E] _]; [apply live_in_list; auto|contradiction].
+  - intros g Hg W R. destruct (i_tr _ I g Hg) as [TL _ _ _]. destruct TL as [WD SK]; [unfold wp_left; rewrite W; reflexivity|].
+    pose proof (i_nc _ I) as NC. apply Nat.ltb_lt in Hg as Hg'. unfold step. rewrite NC, Hg'. cbn [negb]. cbv zeta.
+    destruct (rp (getT s g)) eqn:E; [| |contradiction].
+    + rewrite SK. eauto.
+    + cbn [rp_cconn rp_wdone good andb]. rewrite WD, orb_true_r. eauto.
+Qed.
